@@ -341,6 +341,7 @@ def build(rows, strict=False):
             "id": r["id"], "name": r["name"], "dn": r["dn"], "op": use.op, "kids": kids, "p": p, "s": s,
             "named": named, "en": r["en"], "vid": r["vid"], "ak": r["ak"], "sel": r["sel"], "lim": r.get("lim", 0), "sw": r.get("sw", 0),
             "hasmsg": r["hasmsg"], "emsg": r["emsg"], "thas": thas, "tmsg": tmsg, "prop": prop_of(use.op),
+            "mihas": r.get("mihas", 0), "mimsg": r.get("mimsg", ""), "mirof": r.get("mirof", -1),
             "iop": iv.op, "ikids": list(r["subs"]), "ip": list(p) if iv.op == "raise" else list(iv.p),
         })
     return {"nodes": nodes}, unknown
